@@ -977,6 +977,7 @@ SET_OF_decode_uper(const asn_codec_ctx_t *opt_codec_ctx,
 
 		for(i = 0; i < nelems; i++) {
 			void *ptr = 0;
+			size_t moved_before = pd->moved;
 			ASN_DEBUG("SET OF %s decoding", elm->type->name);
 			if(!elm->type->op->uper_decoder) ASN__DECODE_FAILED;
 			rv = elm->type->op->uper_decoder(opt_codec_ctx, elm->type,
@@ -985,7 +986,7 @@ SET_OF_decode_uper(const asn_codec_ctx_t *opt_codec_ctx,
 				td->name, elm->type->name, rv.code, ptr);
 			if(rv.code == RC_OK) {
 				if(ASN_SET_ADD(list, ptr) == 0) {
-                    if(rv.consumed == 0 && nelems > 200) {
+                    if(pd->moved == moved_before && nelems > 200) {
                         /* Protect from SET OF NULL compression bombs. */
                         ASN__DECODE_FAILED;
                     }
